@@ -4,7 +4,8 @@
    crossed with every next write length 0..NMax, then finalisation.  Each two-write behaviour is printed as
    <<"T", a, n, rem after, blocks after finalise>> and replayed on the real Block1014 by the harness. *)
 EXTENDS Blocks
-CONSTANTS AS, NMax
+CONSTANTS AS, NMax,
+          NBig      \* further next-write lengths (single writes of a megabyte and more)
 VARIABLES s, hist
 Init == s = [d |-> 0, rem |-> P, flen |-> 0] /\ hist = <<>>
 \* the first write either as one call (c = 0) or as two calls of a \div 2 and the rest (c = 1)
@@ -12,7 +13,7 @@ First == hist = <<>> /\ \E a \in AS, c \in {0, 1} :
             /\ s' = IF c = 0 THEN IntWrite(s, a) ELSE IntWrite(IntWrite(s, a \div 2), a - a \div 2)
             /\ hist' = <<a, c>>
 Second == /\ Len(hist) = 2
-          /\ \E n \in 0..NMax :
+          /\ \E n \in (0..NMax) \cup NBig :
                 /\ s' = IntWrite(s, n)
                 /\ hist' = <<hist[1], hist[2], n>>
                 /\ PrintT(<<"T", hist[1], hist[2], n, s'.rem, IntBlocks(s')>>)
